@@ -270,6 +270,19 @@ def r48k(F):
         b, t = sites[0]
         cs = {c for c in calls_in(o.at(t["args"][1], b)) if not c.endswith(NEUTRAL)}
         sig[name] = (fn, b, frozenset(cs))
+    # ... and inside the import hook, which knows the file under its normalised path, every lock call uses that path
+    imp = F.fn("ucglib::build::opcode::runtime::Builtins::import")
+    oi = Origins(imp)
+    for b, t in imp.calls():
+        c = callee(t)
+        if c.endswith(("Environment::reset_out_lock_for_path", "Environment::get_out_lock_for_path", "Environment::set_out_lock_for_path")):
+            labs = oi.at(t["args"][1], b)
+            okn = "ucglib::path::normalize" in calls_in(labs)
+            r.inst("import-hook:%s" % c.split("::")[-1], imp.where(b), okn,
+                   "called with the normalised path" if okn else
+                   "the import hook calls %s with the path as it was written, while the lock of a built file is kept under the folded "
+                   "path: an import spelled with `..` does not release the lock and the importer fails with \"one output per file\""
+                   % c.split("::")[-1])
     ref = sig["set_out_lock_for_path"][2]
     for name, (fn, b, cs) in sorted(sig.items()):
         ok = cs == ref
